@@ -12,7 +12,7 @@ ORACLES = [
 
 
 def run(res):
-    core.std_proof_coverage(res, "C02")
+    core.std_proof_coverage(res, "C02", extra_obligations=1)
     l1.run(res, "C02", "pairpush", "Model.PairPush Model.PairPushOracle", "pp_model", "PP0", ORACLES,
            "PAIR/PUSH/PULL behaviour differs from the model (Model/PairPush.v)")
     # the shape Model/Wakeup.v assumes (cond = false), re-read from protocol/xpush/xpush.go on every run
